@@ -13,7 +13,7 @@ func TestMain(m *testing.M) {
 	core.Main(m, "C14", "cases = table shapes of 1..8 columns over 14 supported types, 0..30 rows of boundary-biased values with NULLs, encoded by the harness into the standard binary COPY stream (signature, flags, optional header extension, tuples, optional -1 trailer) and cut into CopyData messages by a generated chunking (one message, one row per message, fixed sizes 1..64, cuts inside the signature / header / field count / length word / value, empty messages); corruptions: field count 0, n-1, n+1, 65534, field length beyond the stream, negative length other than -1, stream ending mid-row, wrong signature; oracle = rows returned by BinaryCopyReader.Read equal the generated rows then io.EOF for every chunking; corrupted streams yield a non-EOF error at or before the corrupted row, never a panic or an extra row; non-trivial = >= 2 rows and a cut strictly inside a row or the header, or a trailer, or a corruption; distinct = distinct canonical JSON")
 }
 
-var copyTypes = []string{"bool", "int2", "int4", "int8", "float4", "float8", "text", "varchar", "name", "bytea", "uuid", "oid", "date", "timestamp"}
+var copyTypes = []string{"bool", "int2", "int4", "int8", "float4", "float8", "text", "varchar", "name", "bytea", "uuid", "oid", "date", "timestamp", "bpchar", "timestamptz"}
 
 func genCase(t *rapid.T) Case {
 	c := Case{}
